@@ -423,3 +423,13 @@ def uj_out(rows: Seq[RecV], n: Int, kind: Int, jm: Map[JKey, Seq[Tuple[Opt[Int],
     if n <= 0:
         return []
     return uj_out(rows, n - 1, kind, jm, nullw) + [uj_row(rows[n - 1], n, jpairs_of(rows[n - 1], kind, jm, nullw), uj_nu(rows, n - 1, kind, jm, nullw))]
+
+
+@spec
+def count_tokens(vs: Seq[Cell], n: Int) -> Int:
+    # number of aggregate-call tokens among the first n select-list values
+    if n <= 0:
+        return 0
+    if typeof(vs[n - 1], 'rbql_engine.RBQLAggregationToken'):
+        return count_tokens(vs, n - 1) + 1
+    return count_tokens(vs, n - 1)
